@@ -602,3 +602,71 @@ def noisy_read(src, name, chrom, strand, exons, kind, mapq=60):
     if mm:
         r["mm"] = [o + (polya if strand == "-" else 0) for o in mm]
     return r
+
+
+def add_paralog(src, sc, g, new_chrom_p=0.7):
+    """Clone gene g (all isoforms) to another place: a new chromosome or the tail of an existing one.
+    Returns the clone (same relative coordinates) or None."""
+    gs = min(t["exons"][0][0] for t in g["transcripts"])
+    ge = max(t["exons"][-1][1] for t in g["transcripts"])
+    used = set(c[0] for c in sc["chroms"])
+    if src.bool(new_chrom_p) and len(used) < len(CHROM_NAMES):
+        name = [n for n in CHROM_NAMES if n not in used][0]
+        off = src.int(200, 1500) - gs
+        sc["chroms"].append([name, ge + off + src.int(500, 2000), src.int(1, 10 ** 6)])
+        chrom = name
+    else:
+        c = src.choice(sc["chroms"])
+        chrom = c[0]
+        off = c[1] + src.int(100, 600) - gs
+        c[1] = ge + off + src.int(500, 1500)
+    idx = sum(1 for x in sc["genes"] if x["id"].startswith(g["id"] + "p")) + 1
+    clone = {"id": "%sp%d" % (g["id"], idx), "chr": chrom, "strand": g["strand"], "canon": g.get("canon", "canon"),
+             "paralog_of": g["id"], "offset": off,
+             "transcripts": [{"id": "%sp%d" % (t["id"], idx), "exons": [[a + off, b + off] for a, b in t["exons"]]}
+                             for t in g["transcripts"]]}
+    sc["genes"].append(clone)
+    code = g["strand"] if g.get("canon", "canon") == "canon" else None
+    if code:
+        for t in clone["transcripts"]:
+            sc["overrides"] += build.splice_overrides(chrom, t["exons"], code)
+    return clone
+
+
+def shift_read(r, chrom, off, flag_or=0, mapq=None, name=None):
+    """copy of read r placed at another locus (same CIGAR)"""
+    q = dict(r)
+    q["c"] = chrom
+    q["p"] = r["p"] + off
+    q["f"] = r["f"] | flag_or
+    if mapq is not None:
+        q["q"] = mapq
+    if name:
+        q["n"] = name
+    return q
+
+
+def intergenic_read(src, sc, name):
+    """a mono- or two-block read placed in a gap between genes (or None)"""
+    c = src.choice(sc["chroms"])
+    spans = sorted((min(t["exons"][0][0] for t in g["transcripts"]), max(t["exons"][-1][1] for t in g["transcripts"]))
+                   for g in sc["genes"] if g["chr"] == c[0])
+    gaps = []
+    prev = 1
+    for a, b in spans:
+        if a - prev > 500:
+            gaps.append((prev + 150, a - 150))
+        prev = max(prev, b)
+    if c[1] - prev > 500:
+        gaps.append((prev + 150, c[1] - 150))
+    gaps = [g for g in gaps if g[1] - g[0] > 150]
+    if not gaps:
+        return None
+    a, b = src.choice(gaps)
+    s = src.int(a, b - 100)
+    e = min(b, s + src.int(60, 300))
+    return R.make_read(name, c[0], [[s, e]], flag=src.choice([0, 16]), mapq=src.int(20, 60))
+
+
+def unmapped_read(name, file=0):
+    return {"n": name, "c": None, "p": -1, "cg": [], "f": 4, "q": 0, "file": file}
